@@ -311,6 +311,8 @@ def run(fx, tier):
     from c17 import encoder_schema_rules
     v.rule('R-SCHEMA', 'wire schema of encode_disconnect vs the MQTT 5 packet table (field order, kinds, sources, flag bits, Remaining Length)')
     encoder_schema_rules(fx, v, 'C09', only=('encode_disconnect',))
+    from c10 import install_only_when_open_rule
+    install_only_when_open_rule(fx, v, 'C09')
     # "afterwards ... opens no connection": everything that can hold a pending completion under the service
     # (timers of the connect/back-off/read path, the resolver, the mutex, the queues) is drained from cancel()
     from c05 import rule_drain_members
